@@ -475,10 +475,16 @@ def crossfit_part(ctx, fails):
     for i in range(n):
         for cname, ks in (('SingleCrossfitAIPTW', 2), ('DoubleCrossfitAIPTW', 3), ('SingleCrossfitTMLE', 2), ('DoubleCrossfitTMLE', 3)):
             otype = 'binary' if (i + ks) % 2 == 0 or ctx.quick else 'normal'
+            if ctx.quick and cname == 'DoubleCrossfitTMLE':
+                otype = 'normal'        # one continuous cross-fit run in the quick tier too
             nrows = ctx.rng.randint(90, 140)
             if nrows % ks == 0:
                 nrows += 1          # parts of unequal size: the left-over rows go to the last part
             df, meta = datagen.mixed_frame(ctx.rng, n=nrows, outcome=otype)
+            if otype == 'normal' and 'TMLE' in cname and (i % 2 == 0):
+                # a measurement with a floor recorded as exactly 0 (the range of the outcome is data too: 0 is a valid minimum)
+                df['Y'] = np.round(df['Y'] - df['Y'].min(), 6)
+                ctx.count('crossfit TMLE: continuous outcome whose minimum is exactly 0')
             payload = {'part': 'crossfit', 'class': cname, 'data': df.to_dict('list'), 'meta': meta}
             method = ctx.rng.choice(['median', 'mean'])
             per_rd, per_rr = {}, {}
